@@ -125,14 +125,18 @@ fn segment_projection<T: Sx, S: Seg<T>>() {
     let eps = T::epsilon();
     let ab: Vec<T> = (0..S::D).map(|i| b[i] - a[i]).collect();
     let aq: Vec<T> = (0..S::D).map(|i| q[i] - a[i]).collect();
-    goal("degenerate segment -> start", imp(le(len2, eps), and((0..S::D).map(|i| eq(q[i], a[i])).collect())));
+    // the property fixes no tolerance for "degenerate": a zero-length segment must give its only point, every result
+    // must lie on the segment, and the nearest-point law is demanded outside 256 EPS of zero length (vek treats
+    // len^2 <= EPS as degenerate and answers `start`, which is on the segment but not the nearest point)
+    let slack = eps * k(256);
+    goal("zero-length segment -> its only point", imp(eq(len2, k(0)), and((0..S::D).map(|i| eq(q[i], a[i])).collect())));
     // on the segment: parallel to it and between the ends
     let mut par = vec![];
     for i in 0..S::D { for j in i + 1..S::D { par.push(eq(aq[i] * ab[j], aq[j] * ab[i])); } }
-    goal("lies on the segment", imp(gt(len2, eps), and(vec![and(par), ge(dot(&aq, &ab), k(0)), le(dot(&aq, &ab), len2)])));
+    goal("lies on the segment", and(vec![and(par), ge(dot(&aq, &ab), k(0)), le(dot(&aq, &ab), len2)]));
     let lam = var::<T>("lam");
     let c: Vec<T> = (0..S::D).map(|i| a[i] + lam * ab[i]).collect();
-    goal("no point of the segment is nearer", imp(and(vec![gt(len2, eps), ge(lam, k(0)), le(lam, k(1))]), le(d2(&q, &p), d2(&c, &p))));
+    goal("no point of the segment is nearer", imp(and(vec![gt(len2, slack), ge(lam, k(0)), le(lam, k(1))]), le(d2(&q, &p), d2(&c, &p))));
 }
 fn segment_distance<T: Sx, S: Seg<T>>() {
     set_ite_mode(true);
@@ -159,17 +163,20 @@ fn ray_triangle<T: Sx>() {
     let eps = T::epsilon();
     // u >= 0 <=> du*det >= 0 ; v >= 0 <=> dv*det >= 0 ; u+v <= 1 <=> (du+dv)*det <= det^2      (det != 0)
     let inside = and(vec![ge(du * det, k(0)), ge(dv * det, k(0)), le((du + dv) * det, det * det)]);
-    let nonparallel = or(vec![ge(det, eps), le(det, -eps)]);
+    // "non-parallelly": the property fixes no tolerance, so the goals do not pin vek's epsilon test — a hit needs a
+    // non-zero determinant, and a miss of a crossing inside the triangle is excused only within 256 EPS of parallel
+    let nonparallel = ne(det, k(0));
+    let slack = eps * k(256);
     match res {
         Some(t) => {
-            goal("Some => non-parallel (beyond the epsilon threshold) and inside or on the boundary", and(vec![nonparallel, inside]));
+            goal("Some => non-parallel and inside or on the boundary", and(vec![nonparallel, inside]));
             goal("Some(t): t is the line parameter of the crossing", eq(t * det, dt));
             let hit: Vec<T> = (0..3).map(|i| o[i] + t * d[i]).collect();
             // the crossing point, in the triangle's own coordinates: det*(hit - v0) = du*e1 + dv*e2
             goal("origin + t*direction is the crossing point", and((0..3).map(|i| eq((hit[i] - tri[0][i]) * det, du * e1[i] + dv * e2[i])).collect()));
         }
         None => {
-            goal("None => parallel (within epsilon) or outside", or(vec![and(vec![gt(det, -eps), lt(det, eps)]), not(inside)]));
+            goal("None => nearly parallel or outside", or(vec![and(vec![gt(det, -slack), lt(det, slack)]), not(inside)]));
         }
     }
 }
